@@ -34,6 +34,10 @@ NOT_EXPOSED = {
 }
 
 
+# constructor arguments that are couples, and the two properties their members are stored under (checked when the class has both)
+PAIR_PARAMS = {"p1": ("x1", "y1"), "p2": ("x2", "y2"), "glue_points": ("start_glue_point", "end_glue_point")}
+
+
 def gen_value(rng, name: str, ann: str, cls_name: str):
     a = ann.replace(" ", "")
     if name in TEXT_PARAMS and "str" in a and rng.random() < 0.4:
@@ -54,9 +58,13 @@ def gen_value(rng, name: str, ann: str, cls_name: str):
         return rng.choice([None, ["A1:B2"], ["A1:B2", "C3:D4"], "E1:F2"])
     if name == "table_name":
         return rng.choice(["T1", "My Table"])
+    if name in ("p1", "p2") and rng.random() < 0.3:
+        return rng.choice([(0, f"{rng.randrange(1, 9)}cm"), (f"{rng.randrange(1, 9)}cm", 0), (0, 0), ("0cm", 3)])      # numbers are accepted as coordinates
     if name in ("position", "size", "p1", "p2"):
         return (f"{rng.randrange(1, 9)}cm", f"{rng.randrange(1, 9)}mm")
-    if name in ("connected_shapes", "glue_points"):
+    if name == "glue_points":
+        return rng.choice([None, (0, 2), (1, 0), (2, 3), (0, 0)])           # glue point 0 is the first default glue point of a shape
+    if name == "connected_shapes":
         return None
     if name == "level" or name == "outline_level":
         return rng.choice([1, 2, 3]) if "int" in a else rng.choice(["1", "2"])
@@ -237,6 +245,20 @@ def run(chk: core.Check) -> None:
                 if not same(v, got):
                     bad = (n, v, got)
                     break
+            # ---- arguments that are couples: each member is what the property of that member reports -------------
+            if bad is None:
+                for n, (pa, pb) in PAIR_PARAMS.items():
+                    v = kwargs.get(n)
+                    if v is None or pa not in pnames or pb not in pnames:
+                        continue
+                    chk.count("couple arguments", f"{cls.__name__}.{n}" + (" with a 0 member" if 0 in v else ""))
+                    for member, prop in zip(v, (pa, pb)):
+                        got = getattr(e, prop)
+                        if not same(member, got):
+                            bad = (f"{n} -> {prop}", member, got)
+                            break
+                    if bad:
+                        break
             if bad:
                 chk.fail({**case, "clause": "argument-exposed", "parameter": bad[0], "value": bad[1] if isinstance(bad[1], (str, int, bool, type(None))) else repr(bad[1]), "read_back": repr(bad[2])},
                          f"{cls.__name__}: the constructor argument {bad[0]!r} is not what the property of the same name reports")
